@@ -1186,6 +1186,13 @@ class SyncInterpreter(BaseInterpreter[TContext, TEvent]):
         def _runner() -> None:
             """Starts the child and cleans up when it's done or stopped."""
             try:
+                # 🛑 The parent may have been stopped before this thread got
+                #    to run. Its `stop()` called `child.stop()`, which is a
+                #    no-op on a child that has not started yet - so starting
+                #    it now would bring up an actor (and its timers) that
+                #    nobody will ever stop.
+                if self.status == "stopped":
+                    return
                 # 🚀 Start the actor in the background thread.
                 child.start()
                 # 🔄 Keep the thread alive while the child runs.
